@@ -9,30 +9,35 @@ From Coq Require Import List Bool Arith ZArith.
 From OmplV Require Import ControlModel.
 Import ListNotations.
 
+Section Nearest.
+  Variables St D E : Type.
+  Variable dist : St -> St -> D.
+  Variable dlt : D -> D -> bool.
+  (* NearestNeighborsLinear::nearest: first strict minimum *)
+  Fixpoint nearest_from (tree : list (St * option (nat * E))) (q : St) (j best : nat) (bd : D) : nat :=
+    match tree with
+    | [] => best
+    | (s, _) :: t => if dlt (dist s q) bd then nearest_from t q (S j) j (dist s q) else nearest_from t q (S j) best bd
+    end.
+  Definition nearest (tree : list (St * option (nat * E))) (q : St) : nat :=
+    match tree with [] => O | (s, _) :: t => nearest_from t q 1 O (dist s q) end.
+End Nearest.
+
 Section Tree.
   Variables St D I E : Type.
-  Variable dist : St -> St -> D.
   Variable dlt : D -> D -> bool.               (* strict comparison of distances *)
-  Variable target : I -> St.                   (* the state the iteration tries to reach (rstate) *)
+  Variable select : list (St * option (nat * E)) -> I -> nat.   (* the tree node the iteration extends from (an index below the tree size):
+                                                                   the nearest node to the target (RRT), a random node (RLRT) *)
   Variable extend : St -> I -> option (St * E).
   Variable sat : St -> bool.                   (* goal->isSatisfied(state, &dist): verdict *)
   Variable gdist : St -> D.                    (*                                  and distance *)
   Variable dflt : St.
 
   Definition node := (St * option (nat * E))%type.   (* state, parent index and label of the motion from the parent *)
-  (* NearestNeighborsLinear::nearest: first strict minimum *)
-  Fixpoint nearest_from (tree : list node) (q : St) (j best : nat) (bd : D) : nat :=
-    match tree with
-    | [] => best
-    | (s, _) :: t => if dlt (dist s q) bd then nearest_from t q (S j) j (dist s q) else nearest_from t q (S j) best bd
-    end.
-  Definition nearest (tree : list node) (q : St) : nat :=
-    match tree with [] => O | (s, _) :: t => nearest_from t q 1 O (dist s q) end.
-
   Record rst := mkR { r_tree : list node; r_approx : option (nat * D); r_sol : option nat }.
   Definition tree_step (s : rst) (i : I) : rst :=
     let tree := r_tree s in
-    let ni := nearest tree (target i) in
+    let ni := select tree i in
     let nstate := fst (nth ni tree (dflt, None)) in
     match extend nstate i with
     | Some (dstate, e) =>
@@ -102,16 +107,36 @@ Section Rrt.
     | false :: hs => hd dflt samples :: targets hs (tl samples)
     end.
   Definition rrt_extend (n r : St) : option (St * unit) := let d := steer n r in if mv n d then Some (d, tt) else None.
-  Definition rrt_solve (starts : list St) (hits : list bool) (samples : list St) : list (St * option nat) * option (list St * bool * D) :=
-    let '(tree, rep) := tree_solve St D St unit dist dlt (fun r => r) rrt_extend sat gdist dflt starts (targets hits samples) in
+  (* the geometric planners of the family: they differ in how the node to extend from is chosen *)
+  Definition geo_solve (I : Type) (select : list (St * option (nat * unit)) -> I -> nat) (tg : I -> St) (starts : list St) (ins : list I)
+    : list (St * option nat) * option (list St * bool * D) :=
+    let '(tree, rep) := tree_solve St D I unit dlt select (fun n i => rrt_extend n (tg i)) sat gdist dflt starts ins in
     (map (fun n => (fst n, option_map fst (snd n))) tree,
      match rep with Some (path, approx, dd) => Some (map snd path, approx, dd) | None => None end).
+  Definition rrt_solve (starts : list St) (hits : list bool) (samples : list St) : list (St * option nat) * option (list St * bool * D) :=
+    geo_solve St (fun tree r => nearest St D unit dist dlt tree r) (fun r => r) starts (targets hits samples).
   (* several solve() calls without clear(): each call has its own goal-bias draws and samples *)
   Definition rrt_calls (starts : list St) (calls : list (list bool * list St)) : list (St * option nat) * list (option (list St * bool * D)) :=
-    let '(tree, reps) := tree_calls St D St unit dist dlt (fun r => r) rrt_extend sat gdist dflt [] starts (map (fun c => targets (fst c) (snd c)) calls) in
+    let '(tree, reps) := tree_calls St D St unit dlt (fun tree r => nearest St D unit dist dlt tree r) (fun n r => rrt_extend n r) sat gdist dflt [] starts (map (fun c => targets (fst c) (snd c)) calls) in
     (map (fun n => (fst n, option_map fst (snd n))) tree,
      map (fun rep => match rep with Some (path, approx, dd) => Some (map snd path, approx, dd) | None => None end) reps).
 End Rrt.
+
+(* ---- geometric::RLRT (range-limited random tree, keepLast off): the node to extend from is drawn uniformly (RNG::uniformInt) ---- *)
+Section Rlrt.
+  Variables St D : Type.
+  Variable dlt : D -> D -> bool.
+  Variable steer : St -> St -> St.
+  Variable mv : St -> St -> bool.
+  Variable sat : St -> bool.
+  Variable gdist : St -> D.
+  Variable goal_state dflt : St.
+  (* one iteration's input: the variate (as a fraction) that picks the node, and the target state *)
+  Definition rl_select (tree : list (St * option (nat * unit))) (i : (Z * Z) * St) : nat :=
+    let n := Z.of_nat (length tree) in Z.to_nat (Z.min (n - 1) ((n * fst (fst i)) / snd (fst i))).
+  Definition rlrt_solve (starts : list St) (us : list (Z * Z)) (hits : list bool) (samples : list St) : list (St * option nat) * option (list St * bool * D) :=
+    geo_solve St D dlt steer mv sat gdist dflt ((Z * Z) * St) rl_select snd starts (combine us (targets St goal_state dflt hits samples)).
+End Rlrt.
 
 (* ---- control::RRT (no intermediate states) with SimpleDirectedControlSampler ---- *)
 Section CRrt.
@@ -129,7 +154,7 @@ Section CRrt.
     let '(c, k, st) := best_control St C stepf valid (fun x => dist x (fst i)) n (fst (snd i)) (snd (snd i)) in
     if (minDur <=? k)%nat then Some (st, (c, k)) else None.
   Definition crrt_solve (starts : list St) (ins : list citer) :=
-    tree_solve St Z citer (C * nat) dist Z.ltb fst crrt_extend sat gdist dflt starts ins.
+    tree_solve St Z citer (C * nat) Z.ltb (fun tree i => nearest St Z (C * nat) dist Z.ltb tree (fst i)) crrt_extend sat gdist dflt starts ins.
 End CRrt.
 
 (* the control instance run against the implementation: integer states, a control is the increment per step *)
